@@ -105,14 +105,19 @@ Section Walk.
       intros r o2 (A1 & A2 & A3). cbn [wpp rret length]. repeat split; lia.
   Qed.
 
-  Lemma wpp_read_streams : forall sizes streams off, off <= ls ->
-    wpp spec (read_streams sizes streams)
+  Lemma wpp_read_streams : forall rproto sizes streams off, off <= ls ->
+    wpp spec (read_streams rproto sizes streams)
         (fun ss o => off <= o /\ o <= ls /\
-                     ((length streams <= length sizes)%nat -> length ss = length streams) /\
+                     ((length streams <= length sizes)%nat -> (length streams <= length rproto)%nat ->
+                      length ss = length streams) /\
                      forall proto queues,
                        sized_pot proto ss queues <= sized_pot proto streams queues + 8 * (o - off)) off.
   Proof.
-    induction sizes as [|sz sr IH]; intros streams off Hoff.
+    induction rproto as [|t0 pr0 IH]; intros sizes streams off Hoff.
+    { cbn [read_streams wpp rret]. split; [lia|]. split; [exact Hoff|]. split.
+      - destruct streams; cbn [length]; [reflexivity|lia].
+      - intros proto queues. rewrite sized_pot_nil_streams. lia. }
+    destruct sizes as [|sz sr].
     { cbn [read_streams wpp rret]. split; [lia|]. split; [exact Hoff|]. split.
       - destruct streams; cbn [length]; [reflexivity|lia].
       - intros proto queues. rewrite sized_pot_nil_streams. lia. }
@@ -122,19 +127,30 @@ Section Walk.
     cbn [read_streams]. apply wpp_rd_then. intros data o1 Hl Ho Hls.
     assert (Ho1 : o1 <= ls).
     { destruct (N.eq_dec sz 0) as [E|E]; [lia|exact (Hls E)]. }
-    destruct (bsr_append st data) as [st'|k|] eqn:Ea; cbn [rlift rbind]; [|exact I|exact I].
-    apply pending_append in Ea. rewrite Hl in Ea.
-    eapply wpp_bind_with; [apply IH; exact Ho1|].
-    intros r o2 (A1 & A2 & A3 & A4). cbn [wpp rret].
-    split; [lia|]. split; [exact A2|]. split.
-    - cbn [length]. intros Hlen. rewrite A3; [reflexivity|lia].
-    - intros [|t pr] queues; [cbn [sized_pot]; lia|].
-      destruct queues as [|q qr]; [cbn [sized_pot]; lia|].
-      cbn [sized_pot]. specialize (A4 pr qr).
-      set (SP := sized_pot pr r qr) in *. set (SP0 := sized_pot pr tr qr) in *.
-      set (P' := pending st') in *. set (P := pending st) in *. clearbody SP SP0 P' P.
-      destruct (bit_size t =? 0); [lia|].
-      set (X := len q * bit_size t). clearbody X. lia.
+    assert (Htail : forall st', pending st' <= pending st + 8 * sz ->
+      wpp spec (rbind (read_streams pr0 sr tr) (fun r => rret (st' :: r)))
+        (fun ss o => off <= o /\ o <= ls /\
+                     ((length (st :: tr) <= length (sz :: sr))%nat ->
+                      (length (st :: tr) <= length (t0 :: pr0))%nat ->
+                      length ss = length (st :: tr)) /\
+                     forall proto queues,
+                       sized_pot proto ss queues <= sized_pot proto (st :: tr) queues + 8 * (o - off)) o1).
+    { intros st' Ea.
+      eapply wpp_bind_with; [apply IH; exact Ho1|].
+      intros r o2 (A1 & A2 & A3 & A4). cbn [wpp rret].
+      split; [lia|]. split; [exact A2|]. split.
+      - cbn [length]. intros Hlen Hlen2. rewrite A3; [reflexivity|lia|lia].
+      - intros [|t pr] queues; [cbn [sized_pot]; lia|].
+        destruct queues as [|q qr]; [cbn [sized_pot]; lia|].
+        cbn [sized_pot]. specialize (A4 pr qr).
+        set (SP := sized_pot pr r qr) in *. set (SP0 := sized_pot pr tr qr) in *.
+        set (P' := pending st') in *. set (P := pending st) in *. clearbody SP SP0 P' P.
+        destruct (bit_size t =? 0); [lia|].
+        set (X := len q * bit_size t). clearbody X. lia. }
+    destruct (bit_size t0 =? 0).
+    - cbn [rret rbind]. apply Htail. lia.
+    - destruct (bsr_append st data) as [st'|k|] eqn:Ea; cbn [rlift rbind]; [|exact I|exact I].
+      apply pending_append in Ea. rewrite Hl in Ea. apply Htail. exact Ea.
   Qed.
 
   (** * [qr_advance] *)
